@@ -18,7 +18,9 @@ T2 = ["Sympler.C01." + t for t in ["C01_gen_tables_ok", "C01_static_checks_sound
      ["Sympler.Cells.Bridge_activate", "Sympler.Cells.Bridge_deactivate"]
 TR = "translator t_celllists (ManagerCell::activateCell / deactivateCell / activateCellLink / deactivateCellLink by symbolic execution of the pointer statements)"
 MODULES = ["Sympler.Grid", "Sympler.GridLemmas", "Sympler.GridBuildLemmas", "Sympler.Cells", "Sympler.CellsLemmas", "Sympler.CellsPosLemmas",
-           "Sympler.CellsSweepLemmas", "Sympler.PairSearch", "Sympler.Store", "Sympler.Gen.CellTablesGen", "Sympler.Gen.CellListsGen", "Props.C09", "Props.C01Tables", "Props.CellListsBridge"]
+           "Sympler.CellsSweepLemmas", "Sympler.PairSearch", "Sympler.Store", "Sympler.Gen.CellTablesGen", "Sympler.Gen.CellListsGen", "Props.C09", "Props.C01Tables", "Props.CellListsBridge"] + \
+          ["Sympler.GridLinksGeo", "Sympler.GridLinksInv", "Sympler.GridLinksSpec", "Sympler.GridLinksGeomOK", "Sympler.GridLinksLemmas", "Props.C01General"]
+T3 = ["Sympler.C01.C01_static_hypotheses_general", "Sympler.C01.C01_geometry_general"]    # GridOK, OutSingle, GeomOK for EVERY grid built from a positive cutoff
 
 
 def run(ctx):
@@ -32,7 +34,7 @@ def run(ctx):
         ctx.oblige(TR, True)
     except Exception as ex:
         ctx.oblige(TR, False, repr(ex))
-    common.lean_obligations(ctx, ["Props.C09", "Props.C01Tables", "Props.CellListsBridge", "Sympler.PairSearch", "symdrv"], ["Props.C09", "Props.C01Tables", "Props.CellListsBridge"], THEOREMS + T2, MODULES)
+    common.lean_obligations(ctx, ["Props.C09", "Props.C01Tables", "Props.C01General", "Props.CellListsBridge", "Sympler.PairSearch", "symdrv"], ["Props.C09", "Props.C01Tables", "Props.C01General", "Props.CellListsBridge"], THEOREMS + T2 + T3, MODULES)
     n = 60 if not ctx.thorough else 1500
     summ, keep = (None, None)
     if ok:
